@@ -41,7 +41,8 @@ struct Case {
 impl Case {
     fn coq(&self) -> String {
         format!(
-            "PG {} {} {} {} {} {} {} {} {} {}",
+            "PG {} {} {} {} {} {} {} {} {} {} {}",
+            if cfg!(debug_assertions) { "Debug" } else { "Release" },
             self.ty,
             self.op,
             self.k,
@@ -260,13 +261,36 @@ fn rd_u128x4<M: Machine>(v: M::u128x4) -> Vec<u8> {
 struct Gen {
     rng: Rng,
     quick: bool,
+    /// `--light 1` (quick tier, second build profile): thinner walking-one streams; the operand
+    /// classes are the same, the profile only decides whether the constant-amount shifts are checked
+    light: bool,
     nrand: usize,
 }
 impl Gen {
     /// walking-one positions: every bit (exhaustive basis) for 128-bit types and in the
     /// thorough tier; every 7th bit (7 is coprime to 8: all bit-in-byte positions) otherwise
     fn walk_bits(&self, n: usize) -> Vec<usize> {
-        let stride = if self.quick && n > 16 { 7 } else { 1 };
+        let stride = if self.light {
+            if n > 16 { 13 } else { 3 }
+        } else if self.quick && n > 16 {
+            7
+        } else {
+            1
+        };
+        (0..8 * n).filter(|j| j % stride == 0).collect()
+    }
+    /// sparser walk for operations that are not linear in the walked operand (binary operations,
+    /// element access): quick tier every 5th / 11th bit (coprime to 8), thorough tier every bit
+    fn walk_bits_sparse(&self, n: usize) -> Vec<usize> {
+        let stride = if self.light {
+            if n > 16 { 23 } else { 11 }
+        } else if !self.quick {
+            1
+        } else if n > 16 {
+            11
+        } else {
+            5
+        };
         (0..8 * n).filter(|j| j % stride == 0).collect()
     }
     fn unary(&mut self, n: usize) -> Vec<Vec<u8>> {
@@ -335,7 +359,7 @@ impl Gen {
             self.rng.fill(&mut b);
             v.push((a, b));
         }
-        for j in self.walk_bits(n) {
+        for j in self.walk_bits_sparse(n) {
             let mut b = vec![0u8; n];
             b[j / 8] = 1 << (j % 8);
             v.push((b.clone(), r1.clone()));
@@ -471,13 +495,13 @@ fn g_vec_elems<V: Copy, E: Copy>(
     // walking one through the inserted element and through the vector, valid indices
     for i in 0..cnt {
         let base: Vec<u8> = (0..n).map(|t| t as u8).collect();
-        for j in 0..8 * es {
+        for j in g.walk_bits_sparse(es) {
             let mut x = vec![0u8; es];
             x[j / 8] = 1 << (j % 8);
             let r = guard(|| rd(ins(mk(&base), mke(&x), i)));
             cx.push(ty, ops.1, i, &base, &[], &x, r);
         }
-        for j in g.walk_bits(n) {
+        for j in g.walk_bits_sparse(n) {
             let mut a = vec![0u8; n];
             a[j / 8] = 1 << (j % 8);
             let r = guard(|| rde(ext(mk(&a), i)));
@@ -913,12 +937,12 @@ fn c13_extras(cx: &mut Cx, g: &mut Gen) {
 }
 
 // ---------------------------------------------------------------------------
-fn finish(cx: Cx, out: &str, shards: usize, runner: &str, sub: &str, quick: bool) {
+fn finish(cx: Cx, out: &str, shards: usize, runner: &str, sub: &str, quick: bool, light: bool) {
     let coq: Vec<String> = cx.cases.iter().map(|c| c.coq()).collect();
     write_shards(
         out,
         shards,
-        "From Coq Require Import NArith List.\nFrom CC Require Import Run.Runner Run.PpvGeneric.",
+        "From Coq Require Import NArith List.\nFrom CC Require Import Model.PpvSoft Run.Runner Run.PpvGen.",
         "pgcase",
         runner,
         &coq,
@@ -944,13 +968,14 @@ fn finish(cx: Cx, out: &str, shards: usize, runner: &str, sub: &str, quick: bool
     let opmix: Vec<String> = ops.iter().map(|(k, v)| format!("{}:{}", jstr(k), v)).collect();
     let pt: Vec<String> = (0..13).filter(|&t| cx.per_type[t] > 0).map(|t| format!("{}:{}", jstr(ty_name(t as u32)), cx.per_type[t])).collect();
     println!(
-        "{{\"evaluations\":{},\"distinct_nontrivial\":{},\"direct_failures\":[],\"samples\":[{}],\"sub\":{},\"backend\":\"GenericMachine (no_simd)\",\"profile\":{},\"tier_quick\":{},\"outcome_panic\":{},\"per_type\":{{{}}},\"op_mix\":{{{}}}}}",
+        "{{\"evaluations\":{},\"distinct_nontrivial\":{},\"direct_failures\":[],\"samples\":[{}],\"sub\":{},\"backend\":\"GenericMachine (no_simd)\",\"profile\":{},\"tier_quick\":{},\"light\":{},\"outcome_panic\":{},\"per_type\":{{{}}},\"op_mix\":{{{}}}}}",
         n,
         cx.distinct.len(),
         samples.join(","),
         jstr(sub),
         jstr(if cfg!(debug_assertions) { "debug" } else { "release" }),
         quick,
+        light,
         cx.panics,
         pt.join(","),
         opmix.join(",")
@@ -983,19 +1008,20 @@ fn main() {
     let shards = a.u64("shards", 16) as usize;
     let out = a.str("out", "/verif/_build/work/ppvgen_manual");
     let quick = a.str("tier", "quick") == "quick";
-    let mut g = Gen { rng: Rng::new(seed ^ 0x9e4), quick, nrand: a.u64("nrand", if quick { 4 } else { 24 }) as usize };
+    let light = a.u64("light", 0) != 0;
+    let mut g = Gen { rng: Rng::new(seed ^ 0x9e4), quick, light, nrand: a.u64("nrand", if quick { 4 } else { 24 }) as usize };
     let mut cx = Cx::new();
     let m = unsafe { GM::instance() };
     match argv[1].as_str() {
         "c12" => {
             c12_machine(m, &mut cx, &mut g);
             c12_extras(&mut cx, &mut g);
-            finish(cx, &out, shards, "run_pg", "c12", quick);
+            finish(cx, &out, shards, "run_pg", "c12", quick, light);
         }
         "c13" => {
             c13_machine(m, &mut cx, &mut g);
             c13_extras(&mut cx, &mut g);
-            finish(cx, &out, shards, "run_pg", "c13", quick);
+            finish(cx, &out, shards, "run_pg", "c13", quick, light);
         }
         "repro" => repro(),
         other => {
